@@ -72,7 +72,8 @@ def run_variant(repo: str, variant: dict) -> Tuple[str, bool, str]:
         msgs = []
         ok_all = True
         for prop in props:
-            proc = subprocess.run([sys.executable, '-m', 'dznverif', 'check', prop, '--repo', base],
+            proc = subprocess.run([sys.executable, '-m', 'dznverif', 'check', prop, '--repo', base,
+                                   '--tier', variant.get('tier', 'quick')],
                                   cwd=VERIF_ROOT, env=env, capture_output=True, text=True, timeout=300)
             out = proc.stdout
             viol_rules = re.findall(r'^\s+rule (\S+) @ (\S+) (\S+):', out, flags=re.M)
